@@ -256,6 +256,13 @@ def run(ctx):
             if isinstance(x, ast.Constant):
                 continue
             t = norm(x)
+            if isinstance(x, ast.Call) and isinstance(x.func, ast.Attribute) and x.func.attr == 'join' and len(x.args) == 1 and isinstance(x.args[0], ast.Call) \
+                    and norm(x.args[0].func) == 'map' and len(x.args[0].args) == 2 and isinstance(x.args[0].args[0], (ast.Name, ast.Attribute)):
+                # sep.join(map(f, words)) is sep.join(f(w) for w in words)
+                mp_ = x.args[0]
+                gen_ = ast.GeneratorExp(elt=ast.Call(func=mp_.args[0], args=[ast.Name(id='w', ctx=ast.Load())], keywords=[]),
+                                        generators=[ast.comprehension(target=ast.Name(id='w', ctx=ast.Store()), iter=mp_.args[1], ifs=[], is_async=0)])
+                x = ast.Call(func=x.func, args=[gen_], keywords=[])
             if isinstance(x, ast.Call) and isinstance(x.func, ast.Attribute) and x.func.attr == 'join' and x.args and isinstance(x.args[0], (ast.GeneratorExp, ast.ListComp)) \
                     and norm(x.args[0].generators[0].iter) == pa + '.wayland_debug_args':
                 njoin += 1
